@@ -40,7 +40,17 @@ def p_bundle_id_scope_mismatch(v):
     return bool(v.get("facts", {}).get("bundle_id_scope_mismatch"))
 
 
-PREDICATES = {"never": p_never, "bundle_id_scope_mismatch": p_bundle_id_scope_mismatch}
+def p_conflated_association(v):
+    """F20: one subject carries a plain binary and a qualified association (or delegation);
+    the RDF reader folds the binary triple into the qualified node."""
+    sig = v.get("signature", [])
+    if len(sig) < 3 or sig[2] != "content":
+        return False
+    return bool(v.get("facts", {}).get("conflated_association_or_delegation"))
+
+
+PREDICATES = {"never": p_never, "bundle_id_scope_mismatch": p_bundle_id_scope_mismatch,
+              "conflated_association": p_conflated_association}
 
 
 def predicate(name):
